@@ -65,7 +65,9 @@ Section Plain.
        exists j, joiner_new (getP (u_log u)) (u_root u) = Some j /\ j_off j = 0
                  /\ stored (getP (u_log u)) (Z.of_nat cs) (Z.of_nat hs) j (concat segs)).
   Proof.
-    apply (pread_back (plain_stage H) cs b hs Hrl0 Hb Hbdef) with (Good := NoCollision H).
+    intros H63 Hcap.
+    assert (Hcs63 : Z.of_nat cs < 2 ^ 63) by lia.
+    apply (pread_back (plain_stage H) cs b hs Hrl0 Hb Hbdef) with (Good := NoCollision H); [ | | | | | exact H63 | exact Hcap].
     - intros c d st rk Hst. unfold plain_stage in Hst. destruct (Nat.ltb (length d) 8); [discriminate|].
       injection Hst as _ <-. apply Hlen.
     - intros c LA _ _. unfold plain_stage, node_payload. rewrite app_length, le64_length.
@@ -75,14 +77,18 @@ Section Plain.
     - intros LOG Hnc c d st rk Hd Hst Hin. unfold plain_stage, leaf_chunk in Hst.
       rewrite app_length, le64_length in Hst.
       replace (Nat.ltb (8 + length d) 8) with false in Hst by (symmetry; apply Nat.ltb_ge; lia).
-      injection Hst as <- <-. rewrite (getP_hash LOG _ Hnc Hin).
+      assert (Hs1 : st = le64 (N.of_nat (length d)) ++ d) by congruence.
+      assert (Hs2 : rk = H (le64 (N.of_nat (length d)) ++ d)) by congruence. subst st rk. clear Hst.
+      rewrite (getP_hash LOG _ Hnc Hin).
       pose proof (Hcs0 cs b hs Hrl0 Hb Hbdef) as Hcs.
       rewrite chunk_got_plain by (change (2 ^ 63)%N with 9223372036854775808%N; lia). f_equal. lia.
-    - intros LOG Hnc c LA st rk m' S0 _ _ HS _ H63 Hst Hin. unfold plain_stage, node_payload in Hst.
+    - intros LOG Hnc c LA st rk m' S0 _ _ HS _ HS63 Hst Hin. unfold plain_stage, node_payload in Hst.
       rewrite app_length, le64_length in Hst.
       replace (Nat.ltb (8 + _) 8) with false in Hst by (symmetry; apply Nat.ltb_ge; lia).
-      injection Hst as <- <-. fold (node_payload LA). rewrite (getP_hash LOG _ Hnc Hin).
-      unfold node_payload. rewrite chunk_got_plain by (change (2 ^ 63)%N with 9223372036854775808%N; lia).
+      assert (Hs1 : st = le64 (sum_spans LA) ++ concat (map e_ref LA)) by congruence.
+      assert (Hs2 : rk = H (le64 (sum_spans LA) ++ concat (map e_ref LA))) by congruence. subst st rk. clear Hst.
+      rewrite (getP_hash LOG _ Hnc Hin).
+      rewrite chunk_got_plain by (change (2 ^ 63)%N with 9223372036854775808%N; lia).
       now rewrite HS.
   Qed.
 End Plain.
@@ -98,10 +104,11 @@ Section RootRefs.
     2 <= r <= branching -> (r - 1) * (chunk * branching ^ N.of_nat m) < S0 <= r * (chunk * branching ^ N.of_nat m) ->
     S0 < E.W64 -> E.root_refs chunk branching S0 = Some r.
   Proof.
-    intros Hr HS Hw. set (Bm := chunk * branching ^ N.of_nat m) in *.
-    assert (HBm : 1 <= Bm) by (assert (0 < branching ^ N.of_nat m) by (apply N.neq_0_lt_0, N.pow_nonzero; lia); unfold Bm; nia).
-    assert (Hgt : chunk < S0).
-    { assert (chunk <= Bm) by (assert (1 <= branching ^ N.of_nat m) by (apply N.neq_0_lt_0, N.pow_nonzero; lia); unfold Bm; nia). nia. }
+    intros Hr HS Hw.
+    assert (Hpp : 0 < branching ^ N.of_nat m) by (apply N.neq_0_lt_0, N.pow_nonzero; lia).
+    remember (chunk * branching ^ N.of_nat m) as Bm eqn:EBm.
+    assert (HBm : chunk <= Bm) by (rewrite EBm; nia).
+    assert (Hgt : chunk < S0) by nia.
     rewrite (C08.ProofsArith.root_refs_is_closed chunk branching Hc Hb S0 Hgt Hw).
     f_equal. unfold E.root_refs_closed, E.height.
     assert (Hfuel : S0 <= chunk * branching ^ N.of_nat 64).
@@ -113,12 +120,12 @@ Section RootRefs.
     assert (Hpow : forall a c : nat, (a <= c)%nat -> chunk * branching ^ N.of_nat a <= chunk * branching ^ N.of_nat c).
     { intros a c Hac. apply N.mul_le_mono_l. apply N.pow_le_mono_r; lia. }
     assert (Hsucc : chunk * branching ^ N.of_nat (S m) = Bm * branching).
-    { rewrite Nat2N.inj_succ, N.pow_succ_r'. unfold Bm. lia. }
+    { rewrite Nat2N.inj_succ, N.pow_succ_r', EBm. lia. }
     assert (Hh : h = S m).
     { destruct (Nat.lt_trichotomy h (S m)) as [Hlt|[Heq|Hgt']]; [|exact Heq|].
-      - pose proof (Hpow h m ltac:(lia)). fold Bm in H. nia.
+      - pose proof (Hpow h m ltac:(lia)) as Hpw. rewrite <- EBm in Hpw. nia.
       - specialize (Hh2 (S m) Hgt'). rewrite Hsucc in Hh2. nia. }
-    rewrite Hh. replace (S m - 1)%nat with m by lia. fold Bm.
+    rewrite Hh. replace (S m - 1)%nat with m by lia. rewrite <- EBm.
     apply N.le_antisymm.
     - apply (C08.ProofsArith.cdiv_le_iff S0 Bm r); lia.
     - destruct (N.le_gt_cases r (E.cdiv S0 Bm)) as [Hle|Hlt]; [exact Hle|].
@@ -218,7 +225,9 @@ Section Encrypted.
                  /\ stored (getE (u_log u)) (Z.of_nat cs) (Z.of_nat refLen) j (concat segs)).
   Proof.
     pose proof Hc2 as Hc2'. pose proof Hrs1 as Hrs1'.
-    apply (pread_back stage cs b refLen ltac:(lia) ltac:(lia) Hbdef_enc) with (Good := NoCollision Hc).
+    assert (Hcw' : (2 * chunk <= 18446744073709551616)%N) by exact Hcw.
+    intros H63 Hcap. assert (Hcs63 : Z.of_nat cs < 2 ^ 63) by lia.
+    apply (pread_back stage cs b refLen ltac:(lia) ltac:(lia) Hbdef_enc) with (Good := NoCollision Hc); [ | | | | | exact H63 | exact Hcap].
     - intros c d st rk Hst. destruct (stage_inv c d st rk Hst) as [_ ->]. rewrite app_length, HHc, Hkeys. lia.
     - intros c LA Hl Hf. unfold node_payload.
       assert (Hrefs : Forall (fun e => length (e_ref e) = refLen) LA) by (eapply Forall_impl; [|exact Hf]; now intros ? []).
@@ -236,10 +245,10 @@ Section Encrypted.
       { rewrite Hkeys; lia. } { intros; rewrite Hkeys; apply HHk. } { left. split; [reflexivity | lia]. }
       unfold leaf_chunk in He. rewrite le64_same in He', Hdec. rewrite He in He'. injection He' as <-.
       rewrite (getE_ref LOG c st _ Hnc Hin Hdec).
-      rewrite chunk_got_plain by (change (2 ^ 63)%N with 9223372036854775808%N; change E.W64 with 18446744073709551616%N in Hcw; lia).
+      rewrite chunk_got_plain by (change (2 ^ 63)%N with 9223372036854775808%N; lia).
       f_equal. lia.
     - (* intermediate chunks come back *)
-      intros LOG Hnc c LA st rk m' S0 Hl Hrefs HS Hbnd H63 Hst Hin. destruct (stage_inv c _ st rk Hst) as [He ->].
+      intros LOG Hnc c LA st rk m' S0 Hl Hrefs HS Hbnd HS63 Hst Hin. destruct (stage_inv c _ st rk Hst) as [He ->].
       set (SN := sum_spans LA) in *.
       assert (HB : Bsz (Z.of_nat cs) (Z.of_nat refLen) m' = Z.of_N (chunk * branching ^ N.of_nat m')).
       { unfold Bsz. rewrite <- Hbdef_enc. rewrite N2Z.inj_mul, N2Z.inj_pow. f_equal; [lia|]. f_equal; lia. }
@@ -248,11 +257,11 @@ Section Encrypted.
       { apply (root_refs_bounds chunk branching Hc2' Hbr m'); [lia | | change E.W64 with 18446744073709551616%N; lia].
         split; [|lia]. replace (N.of_nat (length LA) - 1)%N with (N.of_nat (length LA - 1)) by lia. lia. }
       assert (Hgt : (chunk < SN)%N).
-      { assert (1 <= branching ^ N.of_nat m')%N by (apply N.neq_0_lt_0, N.pow_nonzero; lia). nia. }
+      { assert (0 < branching ^ N.of_nat m')%N by (apply N.neq_0_lt_0, N.pow_nonzero; lia). nia. }
       destruct (C08.ProofsTop.chunk_restored Hk chunk branching refsize Hchunk Hbr Hrs1' Hcw (keys c)
                   SN (concat (map e_ref LA)) (pads c)) as (stored & He' & _ & Hdec).
       { rewrite Hkeys; lia. } { intros; rewrite Hkeys; apply HHk. }
-      { right. split; [exact Hgt|]. split; [change E.W64 with 18446744073709551616%N in *; lia|].
+      { right. split; [exact Hgt|]. split; [change E.W64 with 18446744073709551616%N; lia|].
         exists (N.of_nat (length LA)). split; [exact Hroot|]. rewrite (node_payload_len LA refLen Hrefs). lia. }
       unfold node_payload in He. fold SN in He. rewrite le64_same in He', Hdec. rewrite He in He'. injection He' as <-.
       rewrite (getE_ref LOG c st _ Hnc Hin Hdec).
